@@ -13,7 +13,9 @@
 //!   mutation: {k:"flip", field, idx, off, xor}        field: pad1 pad2 sigval sig_protected sig_other
 //!                                                             ref_hash ref_url sig_type role ref_data(post only, token)
 //!             {k:"dup_ref", idx, resign} {k:"drop_hard", resign} {k:"add_missing", resign}
-//!             {k:"alter_hash", idx, resign} {k:"sig_type", value, resign} {k:"pad", which, len}
+//!             {k:"alter_hash", idx, resign} {k:"sig_type", value, resign} {k:"pad", which, len, long_pad2, zero}
+//!   `reserve_extra`: bytes added to the reserved assertion size (the SDK then writes a long zero pad1); flips and `pad`
+//!   take `at` = first|mid|last|p4095|p4096|late to place the byte
 //! op "unit": `IdentityAssertion::validate_partial_claim` (hook) on a synthetic claim and identity assertion.
 //!   case: {op, claim:[[url,hashhex]], refs:[[url,hashhex]], sig_type, roles, pad1:hex, pad2:hex|null,
 //!          sig:"valid"|"other"|"garbage"|"nocert"|"empty", cawg_alg, stop:bool, trust:{..}}
@@ -109,6 +111,7 @@ struct MutDyn {
     holder: X509CredentialHolder,
     pre: Value,
     rec: Arc<Mutex<Record>>,
+    reserve_extra: usize,
 }
 
 fn find(hay: &[u8], needle: &[u8]) -> Option<usize> {
@@ -223,10 +226,26 @@ fn flip_in(cbor: &mut [u8], m: &Value) -> Result<String, String> {
     if n == 0 {
         return Err(format!("{field} is empty"));
     }
-    let off = (m["off"].as_u64().unwrap_or(0) as usize) % n;
+    let off = resolve_off(m, n)?;
     let x = (m["xor"].as_u64().unwrap_or(1) as u8).max(1);
     cbor[s + off] ^= x;
     Ok(format!("{field}[{off}/{n}] {note}"))
+}
+
+/// Position inside a field of `n` bytes: `at` = "first" | "mid" | "last" | "p4095" | "p4096" | "late" (4096 + off mod rest),
+/// otherwise `off` modulo n.
+fn resolve_off(m: &Value, n: usize) -> Result<usize, String> {
+    let off = m["off"].as_u64().unwrap_or(0) as usize;
+    match m["at"].as_str() {
+        Some("first") => Ok(0),
+        Some("mid") => Ok(n / 2),
+        Some("last") => Ok(n - 1),
+        Some("p4095") if n > 4095 => Ok(4095),
+        Some("p4096") if n > 4096 => Ok(4096),
+        Some("late") if n > 4097 => Ok(4096 + off % (n - 4096)),
+        Some(a @ ("p4095" | "p4096" | "late")) => Err(format!("field of {n} bytes has no position {a}")),
+        _ => Ok(off % n),
+    }
 }
 
 /// Re-assemble an identity assertion of exactly `size` bytes (the SDK's own padding recipe) or unpadded.
@@ -248,6 +267,18 @@ fn assemble(sp: SignerPayload, sig: Vec<u8>, size: Option<usize>, pad_override: 
     };
     if bare.len() + 21 > size {
         return Err(format!("altered assertion ({}) does not fit the reserved size {size}", bare.len()));
+    }
+    if pad_override["long_pad2"].as_bool().unwrap_or(false) {
+        // the reserved space goes to pad2 instead of pad1
+        let pad1 = vec![0u8; 3];
+        let room = size - bare.len();
+        for l in (room.saturating_sub(40)..=room).rev() {
+            let c = hook::ia_to_cbor(sp.clone(), sig.clone(), pad1.clone(), Some(vec![0u8; l])).map_err(e)?;
+            if c.len() == size {
+                return Ok(c);
+            }
+        }
+        return Err("no pad2 length fills the reserved size".into());
     }
     let pad1 = vec![0u8; size - bare.len() - 15];
     let c1 = hook::ia_to_cbor(sp.clone(), sig.clone(), pad1.clone(), None).map_err(e)?;
@@ -316,7 +347,11 @@ impl MutDyn {
                 if n == 0 {
                     return Err(format!("{field} is empty"));
                 }
-                c[s + (m["off"].as_u64().unwrap_or(0) as usize) % n] = 0x5a;
+                if !m["zero"].as_bool().unwrap_or(false) {
+                    let off = resolve_off(m, n)?;
+                    c[s + off] = 0x5a;
+                    return Ok((c, format!("pad {field}[{off}/{n}]")));
+                }
             }
             return Ok((c, "pad".into()));
         }
@@ -330,7 +365,7 @@ impl DynamicAssertion for MutDyn {
     }
 
     fn reserve_size(&self) -> c2pa::Result<usize> {
-        self.inner.reserve_size()
+        Ok(self.inner.reserve_size()? + self.reserve_extra)
     }
 
     fn content(&self, label: &str, size: Option<usize>, claim: &PartialClaim) -> c2pa::Result<DynamicAssertionContent> {
@@ -364,6 +399,7 @@ struct CawgSigner {
     roles: Vec<String>,
     pre: Value,
     rec: Arc<Mutex<Record>>,
+    reserve_extra: usize,
 }
 
 impl Signer for CawgSigner {
@@ -389,7 +425,7 @@ impl Signer for CawgSigner {
         if !ro.is_empty() {
             iab.add_roles(&ro);
         }
-        vec![Box::new(MutDyn { inner: iab, holder: holder(&self.cawg_alg), pre: self.pre.clone(), rec: self.rec.clone() })]
+        vec![Box::new(MutDyn { inner: iab, holder: holder(&self.cawg_alg), pre: self.pre.clone(), rec: self.rec.clone(), reserve_extra: self.reserve_extra })]
     }
 }
 
@@ -474,6 +510,7 @@ fn run_e2e(case: &Value) -> Value {
         roles: strs(&case["roles"]),
         pre: case["pre"].clone(),
         rec: rec.clone(),
+        reserve_extra: case["reserve_extra"].as_u64().unwrap_or(0) as usize,
     };
     let sctx = e2e::context_merged(Some(r#"{"verify":{"verify_after_sign":false},"builder":{"thumbnail":{"enabled":false}}}"#));
     let mut asset = match e2e::sign(sctx, &def.to_string(), fmt, &src, &signer) {
